@@ -7,11 +7,11 @@ package main
 // datagram; incomplete datagrams must produce nothing.
 
 import (
-	"strings"
 	"bytes"
 	"fmt"
 	"math/rand"
 	"strconv"
+	"strings"
 	"sync"
 	"time"
 
